@@ -470,6 +470,28 @@ class TypeGen:
                     hashable=all(e.hashable for e in els), json_safe=all(e.json_safe for e in els),
                     overlapping=any(e.overlapping for e in els))
 
+    def asis_tuple_matrix(self):
+        """fixed-length tuples with as-is elements (Any / object, bool, str) before, between and after checked elements - alone
+        and as element of a list, value of a dict, field of a model: the positional bookkeeping of the tuple loaders and
+        dumpers (trail indices, length checks, shortcuts for as-is elements) lives exactly here"""
+        int_s, str_s, date_s, dec_s = self.scalar("int"), self.scalar("str"), self.scalar("date"), self.scalar("decimal")
+
+        def any_of(hint):
+            a = self.any()
+            return Spec(hint=hint, ty=a.ty, gen=a.gen, kind="any", hashable=False, json_safe=False)
+        A, Ob = any_of(Any), any_of(object)
+        self.n_models += 1
+        m = self.model_of(f"M{self.n_models}", [("a0", int_s, True), ("b1", str_s, False)])
+        out = []
+        for els in ([A, int_s, str_s], [int_s, Ob, int_s], [A, A, date_s], [Ob, int_s], [int_s, str_s, A], [A, m], [A, dec_s, Ob, int_s],
+                    [str_s, A, Ob, date_s, int_s], [A], [int_s, self.wrap("list", A), int_s]):
+            tp = Spec(hint=tuple[tuple(e.hint for e in els)], ty=["tuple", [e.ty for e in els]],
+                      gen=lambda r, els=els: tuple(e.gen(r) for e in els), kind="tuple", children=list(els), hashable=False,
+                      json_safe=False)
+            out.append(tp)
+            out.append(self.wrap(self.rng.choice(["list", "dict", "model"]), tp))
+        return out
+
     def mapping(self, depth):
         k = self.rng.choice([self.scalar("str"), self.scalar("str"), self.scalar("int"), self.scalar("bool"),
                              self.scalar("decimal"), self.scalar("date"), self.scalar("uuid"), self.literal(),
@@ -1485,9 +1507,11 @@ class Engine:
 
     # ---- generation ------------------------------------------------------------------
     def gen_specs(self, n, depth, user_leaves=False, related=False, stateful=False, literal_unions=False, iter_matrix=False,
-                  generic_models=False):
+                  generic_models=False, tuple_matrix=False):
         tg = TypeGen(self.ctx.rng, user_leaves=user_leaves, stateful=stateful)
         out = tg.iter_matrix() if iter_matrix else []
+        if tuple_matrix:
+            out += tg.asis_tuple_matrix()
         for i in range(n):
             if generic_models and i % 7 == 2:
                 sp = tg.generic_model()
